@@ -43,10 +43,18 @@ CHECKS.update({
                 text='Circular-wait freedom decided by z3 on the real wait predicates from an arbitrary symbolic stream/queue state '
                      '(unbounded sizes), abort releases all waiters; whole sessions incl. early close run with deadlock detection.',
                 note='monitor reduction (C11 premise); sessions explore one cooperative schedule; read-session finding F1 recorded'),
+    'C07': dict(cat='model_checking', ref='§C07',
+                text='Complete write+read sessions executed symbolically under every schedule with at most one preemption at a mutex '
+                     'release / thread start; on every schedule file bytes and delivered objects must match the schedule-free expectation.',
+                note='2 objects; preemption bound 1 complete; deeper interleavings by the monitor reduction (C11, C15, C16)'),
     'C10': dict(cat='model_checking', ref='§C10',
                 text='Every decoder runs on symbolic bytes with bounds/lifetime-checked memory; the whole three-thread read '
                      'pipeline runs on a file with a symbolic object header and must terminate (deadlock and step-budget detection).',
                 note='bounded stream sizes; allocation classes; 4 string-heavy decoders excluded from the per-decoder harness (stated); real zlib outside'),
+    'C11': dict(cat='model_checking', ref='§C11',
+                text='Same schedule exploration with an adversarial consumer (delete right after read()) on lifetime-checked memory and a '
+                     'vector-clock happens-before race detector over every non-atomic access.',
+                note='2 objects; preemption bound 1; races needing >= 2 preemptions outside; native confirmation by chaos-schedule stress replay under ASan'),
     'C15': dict(cat='model_checking', ref='§C15',
                 text='Real UncompressedFile (with real libstdc++ list/shared_ptr/vector code) executed on bounded operation histories with '
                      'symbolic data bytes and completely enumerated chunkings; every byte and observer compared with a flat byte-queue model.',
